@@ -57,6 +57,8 @@ uint64_t maskOf(size_t w) { return w == 0 ? 1 : ((w >= 64) ? ~0ull : ((1ull << w
 
 // ---------------------------------------------------------------------------------------------------------------- generator
 
+void analyseRecipe(Recipe &r);
+
 struct Gen {
 	Rng &rng; Recipe r; size_t maxSteps;
 	std::vector<int> bits, vecs, cnts;
@@ -144,13 +146,51 @@ struct Gen {
 		return -1;
 	}
 
+	// pattern seeds: shapes the planner has special code for
+	void pattern(bool noGroup, size_t &nHints) {
+		const std::string &cls = r.cls;
+		int v = -1; for (int t = 0; t < 10 && v < 0; t++) { int x = pickVec(); if (grouped(x)) v = x; }
+		if (v < 0) return;
+		unsigned p = (unsigned) rng.below(4);
+		if (noGroup && nHints >= 2) return;
+		if (p == 0) { // re-convergent fan-out: hint on one branch only
+			Step f{.kind = rng.chance(1, 2) ? "addc" : "xorc", .w = w(v), .a = v}; f.k = rng.next() & maskOf(w(v)); int fi = add(f);
+			int si = add(Step{.kind = "stage", .w = w(v), .a = fi}); nHints++;
+			static const char *ops[] = {"add", "sub", "xor", "and", "or"};
+			add(Step{.kind = ops[rng.below(5)], .w = w(v), .a = si, .b = v});
+		} else if (p == 1 && !noGroup) { // hints in series with logic in between
+			int si = add(Step{.kind = "stage", .w = w(v), .a = v}); nHints++;
+			Step f{.kind = "addc", .w = w(v), .a = si}; f.k = rng.next() & maskOf(w(v)); int fi = add(f);
+			int b = vecOfWidth(w(v));
+			int x = add(Step{.kind = "xor", .w = w(v), .a = fi, .b = b});
+			add(Step{.kind = "stage", .w = w(v), .a = x}); nHints++;
+		} else if (p == 2 && cls == "movable" && !noGroup) { // movable registers with different (stricter) enables feeding one hinted operation: enable splitting + holding circuit
+			int cnd = someBit();
+			Step m1{.kind = "mreg", .w = w(v), .a = v, .c = cnd}; if (r.rmix != "none" && rng.chance(2, 3)) m1.rst = rndBits(m1.w); m1.fl = 1 | (int) (rng.below(2) << 1); int a1 = add(m1);
+			int b = vecOfWidth(w(v));
+			if (rng.chance(1, 2)) { Step m2{.kind = "mreg", .w = w(v), .a = b}; if (r.rmix != "none" && rng.chance(2, 3)) m2.rst = rndBits(m2.w); m2.fl = 1; if (rng.chance(1, 3)) m2.c = someBit(); b = add(m2); }
+			static const char *ops[] = {"add", "xor", "or"};
+			int x = add(Step{.kind = ops[rng.below(3)], .w = w(v), .a = a1, .b = b});
+			add(Step{.kind = "stage", .w = w(v), .a = x}); nHints++;
+		} else if (cls == "feedforward") { // hint behind an anchored register and in front of one
+			Step f{.kind = "ffreg", .w = w(v), .a = v}; if (rng.chance(1, 2)) f.rst = rndBits(f.w); int fi = add(f);
+			int b = vecOfWidth(w(v));
+			int x = add(Step{.kind = "add", .w = w(v), .a = fi, .b = b});
+			int si = add(Step{.kind = "stage", .w = w(v), .a = x}); nHints++;
+			if (rng.chance(1, 2)) { Step g{.kind = "ffreg", .w = w(v), .a = si}; if (rng.chance(1, 2)) g.rst = rndBits(g.w); add(g); }
+		} else { // a value used both hinted and unhinted by two outputs / consumers
+			int si = add(Step{.kind = "stage", .w = w(v), .a = v}); nHints++;
+			add(Step{.kind = "not", .w = w(v), .a = si});
+		}
+	}
+
 	Recipe generate(size_t clsIdx) {
 		r.cls = CLASSES[clsIdx];
 		const std::string &cls = r.cls;
 		r.reset = rng.chance(1, 2) ? "sync" : "none";
 		{ unsigned m = (unsigned) rng.below(10); r.rmix = m < 4 ? "all" : (m < 7 ? "none" : "mixed"); }
-		if (cls == "negreg" && r.rmix == "mixed") r.rmix = rng.chance(1, 2) ? "all" : "none";
-		r.xdata = rng.chance(1, 5);
+		if (cls == "negreg") r.rmix = "all"; // the register compensating a negative register needs the reset value of the signal it reproduces: known only if all inputs have one
+		r.xdata = false; // data inputs are always defined: with undefined inputs the optimiser (C01) legitimately changes definedness (x == x -> 1) differently in the two designs
 		r.ncyc = 20 + rng.below(16);
 		size_t nData = 1 + rng.below(4), nStall = rng.chance(1, 4) ? 0 : (rng.chance(2, 3) ? 1 : 2);
 		for (size_t i = 0; i < nData; i++) r.ins.push_back(InPin{.w = (i > 0 && rng.chance(1, 4)) ? 0 : 1 + rng.below(8), .stall = false});
@@ -173,7 +213,7 @@ struct Gen {
 		if (noGroup) {
 			// every data pin enters through a chain of movable registers; chain length fixed after the steps are known (see below)
 			for (int p : entryPins) { Step s{.kind = "pin", .w = r.ins[p].w, .k = (uint64_t) p}; int ps = add(s);
-				Step m{.kind = "mreg", .w = r.ins[p].w, .a = ps}; m.dep = 1; if (r.rmix != "none" && (r.rmix == "all" || rng.chance(1, 2))) m.rst = rndBits(m.w); m.fl = 1; entryStepOfPin.push_back(add(m)); r.steps.back().dep = 1; }
+				Step m{.kind = "mreg", .w = r.ins[p].w, .a = ps}; m.dep = 1; if (r.rmix != "none" && (r.rmix == "all" || rng.chance(1, 2))) m.rst = rndBits(m.w); m.fl = 1 | 4; entryStepOfPin.push_back(add(m)); r.steps.back().dep = 1; }
 		}
 		size_t nSteps = 2 + rng.below(maxSteps);
 		size_t nHints = 0;
@@ -195,7 +235,7 @@ struct Gen {
 			}
 			else if (c < 34 && cls == "movable" && !noGroup) { int v = anyGroupedValue(); if (v < 0) continue; Step s{.kind = "mreg", .w = w(v), .a = v};
 				if (r.rmix != "none" && rng.chance(2, 3)) s.rst = rndBits(s.w);
-				s.fl = 1 + (int) rng.below(3); // 1 forward, 2 backward, 3 both
+				s.fl = 1 + 2 * (int) rng.below(2); // 1 forward, 3 forward + backward (a register that may not move forward is a feed-forward register: class feedforward)
 				if (rng.chance(1, 3)) { int cnd = someBit(); if (r.steps[cnd].dep != 0 || true) s.c = cnd; } // stricter enable: en & cnd  -> enable splitting / holding circuit
 				add(s); }
 			else if (c < 34 && cls == "negreg") { int v = anyGroupedValue(); if (v < 0) continue;
@@ -203,6 +243,7 @@ struct Gen {
 				bool wantRst = r.rmix == "all";
 				if (wantRst && !sv.rk) continue;
 				Step s{.kind = "negreg", .w = w(v), .a = v}; if (wantRst) s.rst = bitsOf(sv.rv, s.w); s.fl = (int) rng.below(2); add(s); nHints++; }
+			else if (c < 42 && !vecs.empty()) pattern(noGroup, nHints);
 			else combStep();
 		}
 		if (nHints == 0) { int v = anyGroupedValue(); if (v >= 0) { add(Step{.kind = "stage", .w = w(v), .a = v}); nHints++; } }
@@ -215,6 +256,14 @@ struct Gen {
 		for (size_t i = r.steps.size(); i-- > 0;) if (r.steps[i].kind == "stage" || r.steps[i].kind == "negreg") { bool used = false; for (size_t j = i + 1; j < r.steps.size(); j++) if (r.steps[j].a == (int) i || r.steps[j].b == (int) i || r.steps[j].c == (int) i) used = true; if (!used) outs.insert((int) i); break; }
 		r.outs.assign(outs.begin(), outs.end());
 		analyse();
+		// A register whose enable depends on data is a hold state. The property covers regions that are stateless, whose state does not
+		// depend on the grouped inputs, or that contain feed-forward registers; so a movable register with a stricter enable must be
+		// *pulled* by at most one hint and never be retimed over: drop the stricter enable where two hints follow.
+		// Likewise a hold register must not sit behind feed-forward registers (there the design equals its twin only from the fill cycle and a
+		// hold register would keep a pre-fill value for an unbounded time).
+		for (bool changed = true; changed;) { changed = false;
+			for (auto &s : r.steps) if (s.kind == "mreg" && s.c >= 0 && (s.h > 1 || r.steps[s.a].ffd > 0 || r.steps[s.c].ffd > 0)) { s.c = -1; changed = true; }
+			if (changed) analyse(); }
 		if (noGroup) {
 			// lengthen the entry chains so that every hint finds a movable register on every path: chain length = max hints downstream (+ sometimes one spare)
 			std::vector<Step> ns; std::vector<int> remap(r.steps.size(), -1);
@@ -228,14 +277,19 @@ struct Gen {
 				}
 			}
 			r.steps = ns; for (int &o : r.outs) o = remap[o];
-			// recompute ureg along the new chains
-			for (auto &s : r.steps) { s.ureg = 0; for (int x : {s.a, s.b, s.c}) if (x >= 0) s.ureg = std::max(s.ureg, r.steps[x].ureg); if (s.kind == "mreg" || s.kind == "ffreg") s.ureg++; }
 			analyse();
 		}
 		return r;
 	}
 
-	void analyse() {
+	void analyse() { analyseRecipe(r); }
+};
+
+// liveness, number of hints downstream (h), register depths. A movable register followed by two or more hints is pulled by the first
+// and *retimed over* by the later ones, i.e. it then is a feed-forward register of the pipelined region (unless it is part of an
+// entry chain of identical registers, fl bit 2): it counts for ffd.
+void analyseRecipe(Recipe &r) {
+	{
 		for (auto &s : r.steps) { s.live = false; s.h = 0; }
 		for (int o : r.outs) r.steps[o].live = true;
 		for (size_t i = r.steps.size(); i-- > 0;) {
@@ -243,8 +297,14 @@ struct Gen {
 			size_t hh = s.h + ((s.kind == "stage" || s.kind == "negreg") ? 1 : 0);
 			for (int x : {s.a, s.b, s.c}) if (x >= 0) { r.steps[x].live = true; r.steps[x].h = std::max(r.steps[x].h, hh); }
 		}
+		for (auto &s : r.steps) {
+			s.ffd = 0; s.ureg = 0;
+			for (int x : {s.a, s.b, s.c}) if (x >= 0) { s.ffd = std::max(s.ffd, r.steps[x].ffd); s.ureg = std::max(s.ureg, r.steps[x].ureg); }
+			if (s.kind == "ffreg" || s.kind == "mreg") s.ureg++;
+			if (s.kind == "ffreg" || (s.kind == "mreg" && s.h > 1 && !(s.fl & 4))) s.ffd++;
+		}
 	}
-};
+}
 
 Recipe genMemory(Rng &rng) {
 	Recipe r; r.cls = "memory"; r.reset = rng.chance(1, 2) ? "sync" : "none"; r.rmix = "none"; r.ncyc = 20 + rng.below(16);
